@@ -388,9 +388,13 @@ def permeate_kw(o, T, calc="NRTL", both=0.08):
     if r < 0.55:
         return {}
     if r < 0.8:
+        if o.random() < 0.25:
+            return {"permeate_pressure": wg.rnd(o, 0.5, 6.0, 2)}       # a poor vacuum: small driving force, slow fixed-point convergence (or no flux at all)
         return {"permeate_pressure": o.choice([0, 0.05, 0.2, wg.rnd(o, 0, 0.4, 3)])}
     if calc == "UNIQUAC" and o.random() < 0.7:
         return {}
+    if o.random() < 0.25:
+        return {"permeate_temperature": round(T - o.uniform(15, 50), 2)}      # a warm condenser
     return {"permeate_temperature": round(T - o.uniform(50, 85), 2)}
 
 
@@ -441,7 +445,7 @@ def _flux_args(o, M, need_ideal_p=0.8):
     a.update(permeate_kw(o, T, calc.get("calculation_type", "NRTL")))
     a.update(calc)
     if o.random() < 0.3:
-        a["precision"] = o.choice([1e-3, 3e-4, 5e-5, 1e-6])
+        a["precision"] = o.choice([1e-3, 3e-4, 5e-5, 1e-6, 1e-8, 1e-10])
     return a, info
 
 
@@ -531,6 +535,12 @@ def g_ideal_process(o, M):
     a = {"pv": ref("pvs", i), "conditions": ref("conditions", o.randrange(len(M.spec["conditions"])))}
     _process_common(o, M, a)
     op = {"fn": o.choice(["ideal_isothermal_process", "ideal_non_isothermal_process"]), "args": a}
+    if o.random() < 0.04:
+        # a long, finely stepped run (thousands of flux solves at slowly drifting temperatures in one interpreter)
+        op["fn"] = "ideal_non_isothermal_process"
+        a["number_of_steps"] = o.choice([1100, 1600, 2400])
+        a["delta_hours"] = wg.rnd(o, 0.0005, 0.004, 5)
+        a.pop("precision", None)
     if o.random() < 0.3:
         op["then"] = sorted(o.sample(["get_separation_factor", "get_psi", "get_selectivity"], o.randint(1, 3)))
     return op
